@@ -2,7 +2,7 @@
 import json, os, re, subprocess, time, bisect
 from . import gen
 
-OUT = os.path.join(gen.ROOT, "out")
+OUT = os.environ.get("VERIF_OUT") or os.path.join(gen.ROOT, "out")
 VERUS = os.environ.get("VERUS", "verus")
 RLIMIT = os.environ.get("VERIF_RLIMIT", "30")
 
@@ -28,6 +28,13 @@ SEMANTIC = [
     (re.compile(r"^broadcast|^unable to prove"), "assert"),
     (re.compile(r"^cannot show invariant holds|^could not show invariant"), "invariant"),
     (re.compile(r"^loop ensures not satisfied|^ensures not satisfied"), "loop-ensures"),
+    (re.compile(r"^Call to non-static function fails to satisfy"), "precondition"),      # closure / function-value call
+    (re.compile(r"^requires not satisfied"), "precondition"),
+    (re.compile(r"^bitvector assertion not satisfied"), "assert"),
+    (re.compile(r"^cannot prove"), "assert"),
+    (re.compile(r"^Arithmetic operation that might fail"), "overflow"),
+    (re.compile(r"^value may fail to meet its declared type invariant"), "type-invariant"),
+    (re.compile(r"^need to show decreases|^unable to show termination"), "termination"),
 ]
 UNDECIDED = re.compile(r"(Resource limit|rlimit|timed out|solver|out of memory)", re.I)
 
@@ -48,6 +55,7 @@ class UnitResult:
         self.extractor = None
         self.cmd = ""
         self.canary = None
+        self.degraded = []         # (label, reason): extracted functions whose body could not be annotated: contract assumed, body unverified
 
     def obligations(self):
         return len(self.functions)
@@ -123,6 +131,7 @@ def run_verus(path, extra=()):
 def classify(unit, text, pm, proc):
     """Return (failures, problems, jsonout)."""
     failures, problems = [], []
+    problem_fns = []       # for structural problems: label of the extracted function the error lies in (or None)
     try:
         js = json.loads(proc.stdout) if proc.stdout.strip() else {}
     except ValueError:
@@ -164,6 +173,8 @@ def classify(unit, text, pm, proc):
             kind = macro.rstrip("!").replace("$crate::", "")
         prim = [s for s in spans if s.get("is_primary")] or spans
         sec = [s for s in spans if not s.get("is_primary")]
+        if kind is None and any((s.get("label") or "").startswith(("failed precondition", "failed this", "at the end of the function body")) for s in spans):
+            kind = "precondition" if any((s.get("label") or "").startswith("failed precondition") for s in spans) else "postcondition"
         if kind is None:
             if UNDECIDED.search(msg):
                 problems.append("undecided: " + msg + " " + (" / ".join(_hl(s) for s in spans)))
@@ -172,6 +183,21 @@ def classify(unit, text, pm, proc):
                 if prim:
                     where = " at %s:%s `%s`" % (prim[0].get("file_name"), prim[0].get("line_start"), _hl(prim[0]))
                 problems.append("structural: " + msg + where)
+                lab = None
+                for s in prim:
+                    if not s.get("file_name", "").endswith(base):
+                        continue
+                    off = ls[s["line_start"] - 1] + s["column_start"] - 1
+                    piece = _locate(pm_starts, pm, off)
+                    tag = piece[2] if piece else ("?",)
+                    if tag[0] == "src":
+                        lab = ("src", tag[1], tag[3] + (off - piece[0]))      # (file, source offset): resolved against the extractor's function table
+                    elif tag[0] == "ins":
+                        lab = ("label", tag[1], tag[2] if len(tag) > 2 else "")
+                    elif tag[0] in ("rule", "rule-ins") and len(tag) > 2:
+                        lab = ("label", tag[2], "rule")
+                    break
+                problem_fns.append(lab)
             continue
         # name the obligation
         fn_label = None
@@ -219,6 +245,7 @@ def classify(unit, text, pm, proc):
             name += " @ " + " | ".join(other)
         failures.append({"obligation": name, "kind": kind, "function": fn_label, "message": msg,
                          "locations": locs, "rendered": d.get("rendered", "")})
+    classify.problem_fns = problem_fns
     return failures, problems, js
 
 
@@ -233,8 +260,14 @@ def insert_canaries(text, pm):
     unverified = set(tag[1] for (a, b, tag) in pm if tag[0] == "ins" and len(tag) > 2 and tag[2] == "assume-body")
     for (a, b, tag) in pm:
         if tag[0] == "ins" and len(tag) > 2 and tag[2] == "header" and tag[1] not in unverified:
-            j = text.find("{", b)
-            pos_list.append((j + 1, tag[1]))
+            j = text.find("{", b) + 1
+            # Verus header statements (`hide(f);`) must stay first in the body: the canary goes after them
+            while True:
+                m = re.match(r"\s*(?://[^\n]*\n\s*)*hide\([A-Za-z_0-9:]+\);", text[j:])
+                if not m:
+                    break
+                j += m.end()
+            pos_list.append((j, tag[1]))
     pos_list.sort()
     res = ""
     last = 0
@@ -248,26 +281,52 @@ def insert_canaries(text, pm):
 def run_unit(unit, canary=False, keep=True):
     r = UnitResult(unit)
     t0 = time.time()
-    try:
-        text, pm, ex = gen.generate(unit)
-    except gen.GenError as e:
-        r.status = "undecided"
-        r.problems.append("extraction: %s" % e)
-        r.wall_s = time.time() - t0
-        return r
-    r.extractor = ex
-    os.makedirs(OUT, exist_ok=True)
-    path = os.path.join(OUT, unit + ".rs")
-    with open(path, "w") as fh:
-        fh.write(text)
-    r.path = path
-    proc, wall, cmd = run_verus(path)
-    r.cmd = cmd
-    with open(os.path.join(OUT, unit + ".stderr"), "w") as fh:
-        fh.write(proc.stderr)
-    with open(os.path.join(OUT, unit + ".json"), "w") as fh:
-        fh.write(proc.stdout)
-    failures, problems, js = classify(unit, text, pm, proc)
+    degrade = set()
+    for attempt in range(4):
+        try:
+            text, pm, ex = gen.generate(unit, degrade=degrade)
+        except gen.GenError as e:
+            r.status = "undecided"
+            r.problems.append("extraction: %s" % e)
+            r.wall_s = time.time() - t0
+            return r
+        r.extractor = ex
+        os.makedirs(OUT, exist_ok=True)
+        path = os.path.join(OUT, unit + ".rs")
+        with open(path, "w") as fh:
+            fh.write(text)
+        r.path = path
+        proc, wall, cmd = run_verus(path)
+        r.cmd = cmd
+        with open(os.path.join(OUT, unit + ".stderr"), "w") as fh:
+            fh.write(proc.stderr)
+        with open(os.path.join(OUT, unit + ".json"), "w") as fh:
+            fh.write(proc.stdout)
+        failures, problems, js = classify(unit, text, pm, proc)
+        # a structural (rustc / Verus front end) error inside the annotated body of ONE extracted function: degrade that function
+        # (contract kept as an assumption, body not verified) and verify the rest of the unit
+        new = set()
+        if os.environ.get("VERIF_NO_DEGRADE") != "1":
+            for lab in getattr(classify, "problem_fns", []):
+                if lab is None:
+                    continue
+                if lab[0] == "label":
+                    if lab[2] in ("header", "ret", "implitems"):
+                        continue
+                    cand = lab[1]
+                else:
+                    cand = None
+                    for f in ex.functions:
+                        if f["file"] == lab[1] and f["byte_range"][0] <= lab[2] < f["byte_range"][1]:
+                            if cand is None or (f["byte_range"][1] - f["byte_range"][0]) < cand[1]:
+                                cand = (f["label"], f["byte_range"][1] - f["byte_range"][0])
+                    cand = cand[0] if cand else None
+                if cand and cand not in degrade and any(f["label"] == cand for f in ex.functions):
+                    new.add(cand)
+        if not new:
+            break
+        degrade |= new
+    r.degraded = list(ex.degraded)
     r.failures, r.problems = failures, problems
     vr = js.get("verification-results", {})
     r.verified = vr.get("verified", 0)
